@@ -55,4 +55,49 @@ def startsWith [DecidableEq α] (l xs : List α) : Bool := if xs.length > l.leng
 /-- `EndsWith(queue)` -/
 def endsWith [DecidableEq α] (l xs : List α) : Bool := if xs.length > l.length then false else l.drop (l.length - xs.length) == xs
 
+/-- `IndexOf(item, startAt, endAtPlusOne)`: the first index in `[startAt, min endAtPlusOne length)` holding `item` -/
+def indexOf [DecidableEq α] (l : List α) (v : α) (startAt endAt1 : Nat) : Option Nat :=
+  if startAt ≥ l.length then none
+  else (((l.drop startAt).take (min endAt1 l.length - startAt)).findIdx? (fun x => decide (x = v))).map (· + startAt)
+/-- `LastIndexOf(item, startAt, endAt)`: the last index in `[endAt, min startAt (length-1)]` holding `item` -/
+def lastIndexOf [DecidableEq α] (l : List α) (v : α) (startAt endAt : Nat) : Option Nat :=
+  if endAt ≥ l.length then none
+  else (((l.drop endAt).take (min startAt (l.length - 1) + 1 - endAt)).reverse.findIdx? (fun x => decide (x = v))).map
+         (fun k => endAt + (min startAt (l.length - 1) + 1 - endAt - 1 - k))
+/-- `RemoveFirstInstanceOf(val)`: erase at the first occurrence; undefined when there is none -/
+def removeFirst [DecidableEq α] (l : List α) (v : α) : List α × Bool :=
+  match l.findIdx? (fun x => decide (x = v)) with
+  | some i => removeItemAt l i
+  | none => (l, false)
+/-- `RemoveLastInstanceOf(val)`: erase at the last occurrence; undefined when there is none -/
+def removeLast [DecidableEq α] (l : List α) (v : α) : List α × Bool :=
+  match l.reverse.findIdx? (fun x => decide (x = v)) with
+  | some k => removeItemAt l (l.length - 1 - k)
+  | none => (l, false)
+/-- `InsertItemAtSortedPosition(item)`: behind the last item that is not greater than `item` (`¬ item < l[k]`), at the
+    front when `item` is smaller than the first item or the sequence is empty; returns the position -/
+def insertSortedPos (lt : α → α → Bool) (d : α) (l : List α) (v : α) : List α × Nat :=
+  if l.length > 0 ∧ ¬ lt v (l.getD 0 d) = true then
+    match (List.range l.length).reverse.find? (fun k => ! lt v (l.getD k d)) with
+    | some k => (insertItemAt l (k + 1) v, k + 1)
+    | none => (v :: l, 0)
+  else (v :: l, 0)
+/-- `ReverseItemOrdering(from, to)`: the sub-range `[from, min (to-1) (length-1)]` is reversed -/
+def reverse (l : List α) (from_ to : Nat) : List α :=
+  if from_ < to ∧ 0 < l.length ∧ from_ < min (to - 1) (l.length - 1) then
+    l.take from_ ++ ((l.drop from_).take (min (to - 1) (l.length - 1) + 1 - from_)).reverse ++ l.drop (min (to - 1) (l.length - 1) + 1)
+  else l
+/-- `RemoveAllInstancesOf(val)`: the other items in their order; returns how many were removed -/
+def removeAll [DecidableEq α] (l : List α) (v : α) : List α × Nat :=
+  (l.filter (fun x => decide (x ≠ v)), l.length - (l.filter (fun x => decide (x ≠ v))).length)
+/-- every item equal to the last kept one is dropped -/
+def dedupFrom [DecidableEq α] (last : α) : List α → List α
+  | [] => []
+  | x :: t => if x = last then dedupFrom last t else x :: dedupFrom x t
+/-- `RemoveSortedDuplicateItems()`: runs of equal adjacent items collapse to their first item; returns how many were removed -/
+def dedupAdj [DecidableEq α] : List α → List α
+  | [] => []
+  | x :: t => x :: dedupFrom x t
+def removeSortedDups [DecidableEq α] (l : List α) : List α × Nat := (dedupAdj l, l.length - (dedupAdj l).length)
+
 end Muscle.Containers.Spec
